@@ -6,8 +6,9 @@
       `(if (var = j): p, \nelif (var in {j1, j2}): q, …)`      (`! ` after `(` when `u < 0`)
   with one branch per DISTINCT successor (`tuple(set(nodes))`: in set order, which is not
   modelled) listing the values of the variable that lead to it.  The model returns the abstract
-  conditional chain `MExpr`, the branches in order of first occurrence; the harness parses the
-  text the real code returns into the same abstract form (branches sorted by smallest value).
+  conditional chain `MExpr`, the branches in the order of the LAST occurrence of each distinct
+  successor (`dedup`); the harness parses the text the real code returns into the same abstract
+  form (branches sorted by their largest value).
 -/
 import DD.Mdd
 open Std
@@ -26,13 +27,13 @@ inductive MExpr
 deriving Repr, Inhabited
 
 /-- `cond[x]`: the positions `j` with `nodes[j] == x` -/
-def idxOf (kids : List Int) (x : Int) : List Nat :=
+def mIdxOf (kids : List Int) (x : Int) : List Nat :=
   (List.range kids.length).filter fun j => kids[j]? == some x
 
 /-- the chain over the distinct successors `c` with their expressions `e[x]` -/
 def mChain (var : String) (kids : List Int) : List (Int × MExpr) → MExpr
   | [] => .fail
-  | (x, e) :: rest => .cond var (idxOf kids x) e (mChain var kids rest)
+  | (x, e) :: rest => .cond var (mIdxOf kids x) e (mChain var kids rest)
 
 /-- `MDD.to_expr(u)`; the fuel bounds the recursion depth (levels strictly increase) -/
 def mToExprF : Nat → MTbl → Int → Except Err MExpr
